@@ -39,6 +39,8 @@ func c07Gen(c *vfCtx, emit func(c07Case)) {
 			{name, []vfCall{ok("ssnap", "", "s1"), bad("ssnap", "", "CHANGED")}},
 			// matched values containing header-looking lines that shadow no addressed slot
 			{name, []vfCall{ok("snap", "", "ids:\n[TestQ - 7]\nend"), ok("snap", "", "[TestQ/sub - 12]"), ok("yaml", "", "- [TestQ - 7]\n")}},
+			// values with format verbs, near-terminators and one larger than any line buffer
+			{name, []vfCall{ok("snap", "", "100% done %d %s"), ok("snap", "", "x\n--- \ny\n---\t"), ok("snap", "", c10Big)}},
 		}
 	}
 	names := []string{"TestA", "TestA/s", "TestAB", "FuzzA/seed#0", "Test1", "TestA/c_01"}
